@@ -1,0 +1,66 @@
+//
+// Copyright RIME Developers
+// Distributed under the BSD License
+//
+// Verification-only instrumentation of the deployment path.  Everything in
+// this file is inert unless RIME_VERIF_HOOKS is defined at build time.
+//
+#ifndef RIME_VERIF_DEPLOY_HOOKS_H_
+#define RIME_VERIF_DEPLOY_HOOKS_H_
+
+#ifdef RIME_VERIF_HOOKS
+
+#include <unistd.h>
+#include <cstdio>
+#include <cstdlib>
+#include <string>
+
+namespace rime {
+namespace verif {
+
+// RIME_VERIF_CRASHPOINT(site): counts invocations; when the counter equals
+// $VERIF_DEPLOY_CRASH_AT the process ends at once (_exit(137): no destructors, no
+// stdio flush - the state a kill -9 leaves behind).  With $VERIF_DEPLOY_CRASHLOG set
+// every invocation is appended to that file as "<n> <site>".
+inline void crashpoint(const char* site) {
+  static long counter = 0;
+  static const char* at_env = std::getenv("VERIF_DEPLOY_CRASH_AT");
+  static const long at = at_env ? std::atol(at_env) : -1;
+  static const char* log_env = std::getenv("VERIF_DEPLOY_CRASHLOG");
+  static FILE* log = log_env ? std::fopen(log_env, "a") : nullptr;
+  ++counter;
+  if (log) {
+    std::fprintf(log, "%ld %s\n", counter, site);
+    std::fflush(log);
+  }
+  if (counter == at) {
+    _exit(137);
+  }
+}
+
+// RIME_VERIF_DEPLOG(line): appends one line per staleness decision of the
+// deployment tasks to $VERIF_DEPLOG.
+inline void deplog(const std::string& line) {
+  static const char* log_env = std::getenv("VERIF_DEPLOG");
+  if (!log_env)
+    return;
+  if (FILE* f = std::fopen(log_env, "a")) {
+    std::fprintf(f, "%s\n", line.c_str());
+    std::fclose(f);
+  }
+}
+
+}  // namespace verif
+}  // namespace rime
+
+#define RIME_VERIF_CRASHPOINT(site) ::rime::verif::crashpoint(site)
+#define RIME_VERIF_DEPLOG(line) ::rime::verif::deplog(line)
+
+#else  // RIME_VERIF_HOOKS
+
+#define RIME_VERIF_CRASHPOINT(site) ((void)0)
+#define RIME_VERIF_DEPLOG(line) ((void)0)
+
+#endif  // RIME_VERIF_HOOKS
+
+#endif  // RIME_VERIF_DEPLOY_HOOKS_H_
